@@ -24,7 +24,7 @@ func init() {
 			"(2) accepted bytes: honest encodings with trailing bytes, over-long varints, content mutations and the Rust interop vectors: whenever a decoder accepts b, the reference encoding c of the decoded value has len(c) <= len(b), decodes to the same value and equals obj.Marshal(), also on an object that previously held and had marshalled another value; " +
 			"(3) type separation: every 16-bit tag x body of each type x each of the four request decoders (exhaustive), and generic batches with a foreign-typed element at each position. " +
 			"A coverage-guided stage (Go native fuzzing, FuzzC04) offers arbitrary byte strings to every decoder and applies the accepted-bytes oracle whenever one accepts (40 000 / 4 000 000 executions). distinct_nontrivial = distinct (message type, monitor, field-length vector or mutation class) keys",
-		Floors:            []string{"value_roundtrip_ok", "accepted_bytes_checked", "accepted_noncanonical", "reuse_checked", "tag_rejected", "tag_accepted_own", "batch_foreign_type_rejected", "rust_vector_decoded"},
+		Floors:            []string{"value_roundtrip_ok", "accepted_bytes_checked", "accepted_noncanonical", "reuse_checked", "tag_rejected", "tag_accepted_own", "batch_foreign_type_rejected", "rust_vector_decoded", "decode_again_after_caller_edit_ok"},
 		Assumptions:       []string{"well-formed value domain as stated in DESIGN.md C04 (origin names without ',', [\"\"] for the empty origin list, field widths of the structs)"},
 		FuzzTarget:        "FuzzC04",
 		FuzzExecsQuick:    40000,
@@ -204,6 +204,45 @@ func (m c04) challengeValue(r *core.Rand, i int) {
 		m.bad("TokenChallenge:roundtrip-differs", "UnmarshalTokenChallenge(Marshal(v)) != v", d)
 		return
 	}
+	// the decoded value belongs to the caller: after it was edited in place, decoding the same bytes again returns the
+	// encoded value again; and a receive buffer refilled in place with another challenge decodes to that other one
+	{
+		for k := range dec.RedemptionNonce {
+			dec.RedemptionNonce[k] ^= 0xff
+		}
+		for k := range dec.OriginInfo {
+			dec.OriginInfo[k] = "edited-by-the-caller"
+		}
+		var dec2, dec3 tokens.TokenChallenge
+		var err2, err3 error
+		v3 := v
+		v3.RedemptionNonce = clone(v.RedemptionNonce)
+		if len(v3.RedemptionNonce) > 0 {
+			v3.RedemptionNonce[len(v3.RedemptionNonce)-1] ^= 1
+		} else {
+			v3.TokenType ^= 1
+		}
+		pan, pv, where := core.Guard(func() {
+			dec2, err2 = tokens.UnmarshalTokenChallenge(clone(got))
+			buf := clone(got)
+			tokens.UnmarshalTokenChallenge(buf)
+			copy(buf, encChallenge(v3.TokenType, v3.IssuerName, v3.RedemptionNonce, v3.OriginInfo))
+			dec3, err3 = tokens.UnmarshalTokenChallenge(buf)
+		})
+		if pan {
+			m.bad("TokenChallenge:panic:"+where, "TokenChallenge codec panicked: "+pv, d)
+			return
+		}
+		if err2 != nil || dec2.TokenType != v.TokenType || dec2.IssuerName != v.IssuerName || !bytes.Equal(dec2.RedemptionNonce, v.RedemptionNonce) || !eqStrs(dec2.OriginInfo, v.OriginInfo) {
+			m.bad("TokenChallenge:roundtrip-differs:after-caller-edit", "decoding the same bytes again, after the caller edited the first result in place, does not return the encoded value", d)
+			return
+		}
+		if err3 != nil || dec3.TokenType != v3.TokenType || !bytes.Equal(dec3.RedemptionNonce, v3.RedemptionNonce) || dec3.IssuerName != v3.IssuerName || !eqStrs(dec3.OriginInfo, v3.OriginInfo) {
+			m.bad("TokenChallenge:roundtrip-differs:buffer-refilled", "a receive buffer refilled in place with another challenge does not decode to that challenge", d)
+			return
+		}
+		c.Class("decode_again_after_caller_edit_ok")
+	}
 	c.Class("value_roundtrip_ok")
 	c.Distinctf("challenge:value:%d:%d:%d", il, nl, len(origins))
 	c.Sample("TokenChallenge value", map[string]any{"issuer_len": il, "nonce_len": nl, "origins": origins[:1], "encoded_len": len(want)})
@@ -299,6 +338,37 @@ func (m c04) tokenValue(r *core.Rand, tc tokenCodec, i int) {
 	if dec.TokenType != v.TokenType || !bytes.Equal(dec.Nonce, v.Nonce) || !bytes.Equal(dec.Context, v.Context) || !bytes.Equal(dec.KeyID, v.KeyID) || !bytes.Equal(dec.Authenticator, v.Authenticator) {
 		m.bad("Token:"+tc.name+":roundtrip-differs", "token decoder returns a different value", d)
 		return
+	}
+	{
+		for _, f := range [][]byte{dec.Nonce, dec.Context, dec.KeyID, dec.Authenticator} {
+			for k := range f {
+				f[k] ^= 0xff
+			}
+		}
+		v3 := v
+		v3.Nonce = flipBit(v.Nonce, 7)
+		var dec2, dec3 tokens.Token
+		var err2, err3 error
+		pan, pv, where := core.Guard(func() {
+			dec2, err2 = tc.dec(clone(got))
+			buf := clone(got)
+			tc.dec(buf)
+			copy(buf, encToken(v3))
+			dec3, err3 = tc.dec(buf)
+		})
+		if pan {
+			m.bad("Token:"+tc.name+":panic:"+where, "Token codec panicked: "+pv, d)
+			return
+		}
+		if err2 != nil || !bytes.Equal(encToken(dec2), want) {
+			m.bad("Token:"+tc.name+":roundtrip-differs:after-caller-edit", "decoding the same bytes again, after the caller edited the first result in place, does not return the encoded token", d)
+			return
+		}
+		if err3 != nil || !bytes.Equal(encToken(dec3), encToken(v3)) {
+			m.bad("Token:"+tc.name+":roundtrip-differs:buffer-refilled", "a receive buffer refilled in place with another token does not decode to that token", d)
+			return
+		}
+		c.Class("decode_again_after_caller_edit_ok")
 	}
 	c.Class("value_roundtrip_ok")
 	c.Distinctf("token:%s:value", tc.name)
@@ -538,6 +608,20 @@ func (m c04) requestCase(rc reqCodec, r *core.Rand, i int) {
 				continue
 			}
 			c.Class("reuse_checked")
+		}
+		// (4) a receive buffer decoded once, refilled in place with another well-formed value of the same length and
+		// decoded again (fresh object and the same object): the value is the one now in the buffer
+		if enc2 := rc.gen(r, i); len(enc2) == len(enc) && !bytes.Equal(enc2, enc) {
+			buf := clone(enc)
+			o1, _ := rc.mk()
+			o1.Unmarshal(buf)
+			copy(buf, enc2)
+			o2, canon2 := rc.mk()
+			if !o2.Unmarshal(buf) || !bytes.Equal(canon2(), enc2) || !bytes.Equal(o2.Marshal(), enc2) {
+				m.bad(rc.name+":roundtrip-differs:buffer-refilled", "a receive buffer refilled in place with another request does not decode to that request", map[string]any{"codec": rc.name, "first": core.Hex(enc), "second": core.Hex(enc2)})
+			} else {
+				c.Class("decode_again_after_caller_edit_ok")
+			}
 		}
 		// a rejected Unmarshal followed by Marshal is not constrained by the property; not judged.
 	})
